@@ -469,8 +469,9 @@ def rule_r5(chk, prog):
               'introduce_variables', ok, 'unexpected call structure',
               loc=um.loc(a))
     if ok:
-        n = expr_owner_node(acfg, calls[0])
-        facts = IN.get(n) or frozenset()
+        from ..cfg import facts_at as _facts_at
+        from ..astutil import expand_locals as _xl
+        facts = _facts_at(a, calls[0])
         aps = params_of(a)
         cond = any(t.endswith(f' is {aps[0]}') and not pol
                    for (t, pol) in facts) and any(
@@ -483,12 +484,12 @@ def rule_r5(chk, prog):
                   nontrivial=True)
         s = subs[0]
         ok2 = len(s.args) == 2 and unparse(s.args[0]) == aps[0] and unparse(
-            s.args[1]).endswith('.substs')
+            _xl(a, s.args[1])).endswith('.substs')
         chk.check('C11.R5', 'mutator_utils.apply_simp', s, ok2,
                   'substitute must be applied to the input with the '
                   'simplification\'s own map', loc=um.loc(s), nontrivial=True)
         iv = calls[0]
-        ok3 = len(iv.args) == 2 and unparse(iv.args[1]).endswith(
+        ok3 = len(iv.args) == 2 and unparse(_xl(a, iv.args[1])).endswith(
             '.fresh_vars')
         chk.check('C11.R5', 'mutator_utils.apply_simp', iv, ok3,
                   'introduce_variables must receive the requested '
